@@ -35,8 +35,8 @@ MANIFEST = dict(
     text=("Lean 4 theorems (Props/C07.lean) about the real-number model of Coordinates.vsop_pos / geometric_vsop_pos / "
           "apparent_vsop_pos / orbital_elements and the per-planet wrappers, with the coefficient tables regenerated "
           "from the source on every run (tools/gen_tables.py): for EVERY table and every t the evaluator as coded "
-          "(Horner over series sums) equals the direct sum of t^i A cos(B + C t); longitude of vsop_pos in [0, 360), "
-          "latitude in (-360, 360); size of the FK5 correction and of the aberration term; per planet, from the "
+          "(Horner over series sums) equals the direct sum of t^i A cos(B + C t); longitude in [0, 360) and latitude in (-360, 360) for vsop_pos and after the "
+          "FK5 / aberration / nutation corrections; size of the FK5 correction and of the aberration term; per planet, from the "
           "generated tables: Kepler's third law (0.1 % / 1 %), the series' mean-longitude rate equals the "
           "orbital-element rate to 1e-6, and the un-reduced longitude series is strictly increasing on t in [-4, 2] "
           "millennia (triangle-inequality bound on the derivative, sums of |A| and |A C| re-computed by the kernel). "
